@@ -223,3 +223,66 @@ if __name__ == "__main__":
         if o["status"] != "discharged":
             print(o["name"], "::", o["reason"])
     print(len(obligations(sys.argv[1] if len(sys.argv) > 1 else "/repo")), "functions with watched inputs")
+
+
+# ---------------------------------------------------------------------------------------------------------------------
+# call-arity obligations (C14.arity): every call `x.<name>(...)` of a method name that has ONE signature shape across
+# all its definitions in the package passes a matching number of arguments.
+ARITY_NAMES = {"is_scoring_scheme_relevant_when_incomplete_rankings": ["C14"],
+               "compute_consensus_rankings": ["C14", "C03"], "get_kemeny_score": ["C01"],
+               "sub_problem_from_elements": ["C16"], "sub_problem_from_ids": ["C16"]}
+
+
+def _signature(fn):
+    a = fn.args
+    names = [x.arg for x in a.args]
+    if names[:1] in (["self"], ["cls"]):
+        names = names[1:]
+    nreq = len(names) - len(a.defaults)
+    return (nreq, len(names), tuple(names), a.vararg is not None, a.kwarg is not None)
+
+
+def arity_obligations(repo, prop=None):
+    defs, calls = {}, []
+    root = os.path.join(repo, "corankco")
+    for dirpath, _dirs, files in os.walk(root):
+        for fn in sorted(files):
+            if not fn.endswith(".py"):
+                continue
+            path = os.path.join(dirpath, fn)
+            rel = os.path.relpath(path, repo)
+            try:
+                tree = ast.parse(open(path, encoding="utf-8").read())
+            except SyntaxError:
+                continue
+            for node in ast.walk(tree):
+                if isinstance(node, ast.ClassDef):
+                    for m in node.body:
+                        if isinstance(m, ast.FunctionDef) and m.name in ARITY_NAMES:
+                            defs.setdefault(m.name, []).append(("%s::%s.%s" % (rel, node.name, m.name), _signature(m)))
+                if isinstance(node, ast.Call) and isinstance(node.func, ast.Attribute) and node.func.attr in ARITY_NAMES:
+                    calls.append((rel, node))
+    out = []
+    for rel, node in calls:
+        name = node.func.attr
+        if prop is not None and prop not in ARITY_NAMES[name]:
+            continue
+        sigs = {s[1][:2] + (s[1][3], s[1][4]) for s in defs.get(name, [])}
+        oname = "arity(%s.%s @ %s:+%d)" % (ast.unparse(node.func.value)[:30], name, rel, node.lineno)
+        rec = {"name": oname, "kind": "call-arity", "function": rel, "paths": 1, "solver": "ast-signature-check",
+               "time_s": 0.0, "note": ast.unparse(node)[:120]}
+        if len(sigs) != 1 or any(isinstance(a, ast.Starred) for a in node.args) or any(k.arg is None for k in node.keywords):
+            rec.update(status="undecided", reason="several signature shapes or a starred call: not decided syntactically")
+        else:
+            nreq, nmax, var, kw = next(iter(sigs))
+            params = defs[name][0][1][2]
+            npos = len(node.args)
+            kws = [k.arg for k in node.keywords]
+            given = set(params[:npos]) | set(kws)
+            ok = (npos <= nmax or var) and all(k in params or kw for k in kws) and all(p in given for p in params[:nreq]) \
+                and len(set(params[:npos]) & set(kws)) == 0
+            rec.update(status="discharged" if ok else "refuted",
+                       reason="" if ok else "call passes %d positional %s keyword arguments; every definition takes %s"
+                       % (npos, kws, list(params)))
+        out.append(rec)
+    return out
